@@ -11,6 +11,7 @@ from typing import TYPE_CHECKING
 from .exceptions import PestParsingError
 from .grammar import parse
 from .grammar.codegen.generate import generate_module
+from .grammar.exceptions import PestGrammarError
 from .grammar.optimizer import DEFAULT_OPTIMIZER
 from .grammar.rule import BuiltInRule
 from .grammar.rules.ascii import ASCII_RULES
@@ -89,15 +90,18 @@ class Parser:
         Raises:
             PestGrammarSyntaxError: If `grammar` is invalid.
         """
-        rules, doc = parse(grammar, cls.BUILTIN)
+        try:
+            rules, doc = parse(grammar, cls.BUILTIN)
 
-        # TODO: validate rules
-        # - validate_repetition
-        # - validate_choices
-        # - validate_whitespace_comment
-        # - validate_tag_silent_rules
+            # TODO: validate rules
+            # - validate_repetition
+            # - validate_choices
+            # - validate_whitespace_comment
+            # - validate_tag_silent_rules
 
-        return cls(rules, doc, optimizer=optimizer, debug=debug)
+            return cls(rules, doc, optimizer=optimizer, debug=debug)
+        except RecursionError as err:
+            raise PestGrammarError("grammar is nested too deeply") from err
 
     def __str__(self) -> str:
         doc = "".join(f"//!{line}\n" for line in self.doc) + "\n" if self.doc else ""
